@@ -350,7 +350,7 @@ Definition bound (g : graph) (p : plan) (e : nat) : list nat :=
 
 (* Builder::LoadDyndeps + Plan::DyndepsLoaded up to the EdgeMaybeReady loop; returns the new plan and
    the edges that loop visits *)
-Definition apply_load (g : graph) (loads : nat -> option load) (e : nat) (p : plan)
+Definition apply_load_gen (strict : bool) (g : graph) (loads : nat -> option load) (e : nat) (p : plan)
   : res (plan * list nat) :=
   match bound g p e with
   | [] => Ok (p, [])                      (* no output of e is a pending dyndep file *)
@@ -371,7 +371,7 @@ Definition apply_load (g : graph) (loads : nat -> option load) (e : nat) (p : pl
           | None => Forbidden
           | Some p5 =>
             if chk_evol g L p p5 && chk_closed g p5 && chk_sched g p5 && chk_oclosed g p5
-               && chk_walk g p p5 (ld_walk L)
+               && (negb strict || chk_walk g p p5 (ld_walk L))
             then Ok (p5, ld_walk L)
             else Forbidden
           end
@@ -379,6 +379,14 @@ Definition apply_load (g : graph) (loads : nat -> option load) (e : nat) (p : pl
       end
     end
   end.
+
+Definition apply_load (g : graph) (loads : nat -> option load) (e : nat) (p : plan)
+  : res (plan * list nat) := apply_load_gen true g loads e p.
+(* OLD behaviour, before "fix: schedule validation targets discovered by a mid-build dyndep load": the
+   validation targets the re-scan met were inserted by AddTarget and were NOT on dyndep_walk; nothing
+   guaranteed that every edge that became ready was visited ([chk_walk] not enforced).  Kept for the
+   refutation [C06_never_stuck_old_refuted]. *)
+Definition apply_load_old := apply_load_gen false.
 
 (* Plan::EdgeFinished, with NodeFinished and EdgeMaybeReady inlined as the fold.
    [success] = (result == kEdgeSucceeded); [holds_slot] = the edge went through FindWork.
@@ -427,6 +435,62 @@ Fixpoint edge_finished (fuel : nat) (g : graph) (cfg : config) (prio : list nat)
                        if all_inputs_ready g pp d then
                          if want_eqb wd WNothing
                          then edge_finished fuel' g cfg prio loads d true false pp
+                         else schedule_work g prio d pp
+                       else Ok pp
+                     end)
+                  (walk ++ cons_at g p5 e) p5
+              | Forbidden => Forbidden
+              | OutOfFuel => OutOfFuel
+              end
+            end
+        end
+      end
+    end
+  end.
+
+(* the same with the old load ([apply_load_old]) *)
+Fixpoint edge_finished_old (fuel : nat) (g : graph) (cfg : config) (prio : list nat)
+         (loads : nat -> option load)
+         (e : nat) (success holds_slot : bool) (p : plan) : res plan :=
+  match fuel with
+  | O => OutOfFuel
+  | S fuel' =>
+    match p_want p e with
+    | None => Forbidden                           (* assert(e != want_.end()) *)
+    | Some w =>
+      let dw := negb (want_eqb w WNothing) in     (* directly_wanted *)
+      let q := pool g e in
+      let released :=                             (* if (directly_wanted) pool->EdgeFinished(edge) *)
+        if dw && negb (Nat.eqb (depth g q) 0)
+        then (match p_use p q with O => None | S u => Some (set_use p (upd (p_use p) q u)) end)
+        else Some p in
+      match released with
+      | None => Forbidden
+      | Some p1 =>
+        let p2 := retrieve g prio q p1 in         (* pool->RetrieveReadyEdges(&ready_) *)
+        match release_token cfg holds_slot p2 with
+        | None => Forbidden
+        | Some p3 =>
+          if negb success then Ok p3
+          else
+            let wanted' := if dw then (match p_wanted p3 with O => None | S n => Some n end)
+                           else Some (p_wanted p3) in
+            match wanted' with
+            | None => Forbidden
+            | Some n =>
+              let p4 := set_oready (set_want (set_wanted p3 n) (upd (p_want p3) e None))
+                                   (upd (p_oready p3) e true) in
+              match apply_load_old g loads e p4 with
+              | Ok (p5, walk) =>
+                (* NodeFinished for every output; EdgeMaybeReady for every wanted out-edge *)
+                fold_res
+                  (fun d pp =>
+                     match p_want pp d with
+                     | None => Ok pp
+                     | Some wd =>
+                       if all_inputs_ready g pp d then
+                         if want_eqb wd WNothing
+                         then edge_finished_old fuel' g cfg prio loads d true false pp
                          else schedule_work g prio d pp
                        else Ok pp
                      end)
@@ -544,7 +608,9 @@ Definition in_build (s : state) : bool :=
 Definition scheduled (s : state) : list nat :=
   p_ready (s_plan s) ++ p_delayed (s_plan s) ++ s_running s ++ s_failed s.
 
-Definition step_res (g : graph) (cfg : config) (loads : nat -> option load) (s : state) (ev : event)
+Definition ef_type := nat -> graph -> config -> list nat -> (nat -> option load) -> nat -> bool -> bool -> plan -> res plan.
+
+Definition step_res_gen (ef : ef_type) (g : graph) (cfg : config) (loads : nat -> option load) (s : state) (ev : event)
   : res state :=
   let p := s_plan s in
   match ev with
@@ -557,7 +623,7 @@ Definition step_res (g : graph) (cfg : config) (loads : nat -> option load) (s :
       let p1 := set_ready p (rem e (p_ready p)) in
       let p2 := match c_jobserver cfg with None => p1 | Some _ => set_tokens p1 (S (p_tokens p1)) end in
       if phony g e then
-        match edge_finished (plan_fuel g) g cfg prio loads e true true p2 with
+        match ef (plan_fuel g) g cfg prio loads e true true p2 with
         | Ok p3 =>
           (* EdgeAddedToPlan calls made by a dyndep load inside EdgeFinished *)
           Ok (mkState p3 (s_running s) (s_pending s) (s_fa s) (s_exit s)
@@ -607,7 +673,7 @@ Definition step_res (g : graph) (cfg : config) (loads : nat -> option load) (s :
         let run' := rem e (s_running s) in
         let fin' := S (s_finished s) in              (* status_->BuildEdgeFinished *)
         if Nat.eqb code 0 then
-          match edge_finished (plan_fuel g) g cfg prio loads e true true p with
+          match ef (plan_fuel g) g cfg prio loads e true true p with
           | Ok p' => Ok (mkState p' run' pend (s_fa s) (s_exit s)
                                  (s_total s + (p_commands p' - p_commands p)) (s_started s) fin'
                                  (s_failed s) false (s_phase s))
@@ -615,7 +681,7 @@ Definition step_res (g : graph) (cfg : config) (loads : nat -> option load) (s :
           | OutOfFuel => OutOfFuel
           end
         else
-          match edge_finished (plan_fuel g) g cfg prio loads e false true p with
+          match ef (plan_fuel g) g cfg prio loads e false true p with
           | Ok p' =>
             (* SetFailureCode(code); if (failures_allowed) failures_allowed-- *)
             Ok (mkState p' run' pend (pred (s_fa s)) code (s_total s) (s_started s) fin'
@@ -662,6 +728,11 @@ Definition step_res (g : graph) (cfg : config) (loads : nat -> option load) (s :
     end
   end.
 
+Definition step_res : graph -> config -> (nat -> option load) -> state -> event -> res state :=
+  step_res_gen edge_finished.
+Definition step_res_old : graph -> config -> (nat -> option load) -> state -> event -> res state :=
+  step_res_gen edge_finished_old.
+
 Definition step (g : graph) (cfg : config) (loads : nat -> option load) (s : state) (ev : event)
   : option state :=
   match step_res g cfg loads s ev with Ok s' => Some s' | _ => None end.
@@ -673,6 +744,16 @@ Fixpoint accepts (g : graph) (cfg : config) (loads : nat -> option load) (s : st
   | ev :: t => match step g cfg loads s ev with
                | Some s' => accepts g cfg loads s' t
                | None => None
+               end
+  end.
+
+Fixpoint accepts_old (g : graph) (cfg : config) (loads : nat -> option load) (s : state) (evs : list event)
+  : option state :=
+  match evs with
+  | [] => Some s
+  | ev :: t => match step_res_old g cfg loads s ev with
+               | Ok s' => accepts_old g cfg loads s' t
+               | _ => None
                end
   end.
 
@@ -888,4 +969,45 @@ Definition dd_trace_twice : list event :=
 Example dd_old_started_twice : is_some (run_old dd_graph dd_cfg dd_loads [] dd_snap dd_trace_twice) = true.
 Proof. vm_compute. reflexivity. Qed.
 Example dd_new_not_twice : is_some (run dd_graph dd_cfg dd_loads [] dd_snap dd_trace_twice) = false.
+Proof. vm_compute. reflexivity. Qed.
+
+(* THE OLD BUG 2 (before "fix: schedule validation targets discovered by a mid-build dyndep load").
+   0 = v, a command without producer inputs, validation target of 1 = o1; 2 produces the dyndep file of
+   3 = o5, which says that o5 needs o1.  Only 2 and 3 are planned.  The load inserts 1 (AddSubTarget, on the
+   walk) and 0 (old: AddTarget, NOT on the walk): 0 is ready but nobody schedules it; when 1 and 3 are done
+   the loop has nothing to start and nothing to wait for: "stuck [this is a bug]", exit status 0. *)
+Definition vs_graph : graph :=
+  mkGraph [ mkEdge [] [] 0 false None [];
+            mkEdge [] [(3, Some 3)] 0 false None [];
+            mkEdge [] (plain [3]) 0 false None [3];
+            mkEdge [(2, None); (1, Some 3)] [] 0 false (Some 2) [] ] [].
+Definition vs_cfg : config := mkConfig 1 1 None.
+Definition vs_snap : snapshot :=
+  mkSnap (fun e => if Nat.eqb e 2 || Nat.eqb e 3 then Some WToStart else None) (fun _ => false) 2 2.
+Definition vs_loads_old : nat -> option load :=
+  fun e => if Nat.eqb e 2 then Some (mkLoad [] [] [(1, true); (0, true)] [1; 3]) else None.
+Definition vs_loads_new : nat -> option load :=
+  fun e => if Nat.eqb e 2 then Some (mkLoad [] [] [(1, true); (0, true)] [0; 1; 3]) else None.
+Definition vs_trace_old : list event :=
+  [ EvStart 2 []; EvWait; EvFinish 2 0 []; EvStart 1 []; EvWait; EvFinish 1 0 []; EvStart 3 []; EvWait;
+    EvFinish 3 0 [] ].
+
+Example vs_wf : wf_graph_b vs_graph (fun e => e) && wf_snap_b vs_graph vs_snap && wf_cfg_b vs_cfg = true.
+Proof. vm_compute. reflexivity. Qed.
+(* old code: the trace is accepted and ends in a state from which the stuck exit (status 0) is accepted *)
+Example vs_old_stuck :
+  match accepts_old vs_graph vs_cfg vs_loads_old (init_state vs_graph vs_cfg [] vs_snap) vs_trace_old with
+  | Some s => match step_res_old vs_graph vs_cfg vs_loads_old s (EvExit 0 MStuck) with Ok _ => true | _ => false end
+  | None => false
+  end = true.
+Proof. vm_compute. reflexivity. Qed.
+(* fixed code: that walk is refused (an edge that became ready is not visited) ... *)
+Example vs_new_rejects_old_walk :
+  is_some (run vs_graph vs_cfg vs_loads_old [] vs_snap [EvStart 2 []; EvWait; EvFinish 2 0 []]) = false.
+Proof. vm_compute. reflexivity. Qed.
+(* ... and with the validation target on the walk it is built and the build succeeds *)
+Example vs_new_ok :
+  is_some (run vs_graph vs_cfg vs_loads_new [] vs_snap
+             [ EvStart 2 []; EvWait; EvFinish 2 0 []; EvStart 0 []; EvWait; EvFinish 0 0 []; EvStart 1 []; EvWait;
+               EvFinish 1 0 []; EvStart 3 []; EvWait; EvFinish 3 0 []; EvExit 0 MSuccess ]) = true.
 Proof. vm_compute. reflexivity. Qed.
